@@ -70,6 +70,15 @@ func mkC18Message(name string) c18Shared {
 	}
 	un := UnprotectedHeader(mkBenignMap(name+".u", 1, false))
 	h := Headers{Protected: prot, Unprotected: un}
+	if feature == 0 {
+		// headers supplied in raw form only (an application that decodes headers itself): the parsed side is nil
+		switch vChoose(name+".rawonly", 3) {
+		case 1:
+			h = Headers{RawProtected: []byte{0x43, 0xa1, 0x01, 0x26}, Unprotected: un}
+		case 2:
+			h = Headers{RawProtected: []byte{0x43, 0xa1, 0x01, 0x26}, RawUnprotected: []byte{0xa0}}
+		}
+	}
 	sig := vBlobN(name+".sig", 1, 100)
 	switch kind {
 	case 0:
